@@ -89,6 +89,7 @@ struct ScriptedAppenderConfig {
     id: usize,
     fail: bool,
     log_sink: bool,
+    nested: bool,
 }
 struct ScriptedAppenderDeserializer {
     slots: std::collections::HashMap<usize, (Arc<AtomicUsize>, Arc<AtomicUsize>)>,
@@ -98,7 +99,7 @@ impl log4rs::config::Deserialize for ScriptedAppenderDeserializer {
     type Config = ScriptedAppenderConfig;
     fn deserialize(&self, c: ScriptedAppenderConfig, _: &log4rs::config::Deserializers) -> anyhow::Result<Box<dyn log4rs::append::Append>> {
         let (n, fl) = self.slots[&c.id].clone();
-        Ok(if c.log_sink { Box::new(LogSink { n, flushes: fl }) } else { Box::new(ScriptedAppender { n, fail: c.fail, flushes: fl }) })
+        Ok(if c.nested { nested(n, fl) } else if c.log_sink { Box::new(LogSink { n, flushes: fl }) } else { Box::new(ScriptedAppender { n, fail: c.fail, flushes: fl }) })
     }
 }
 /// entries of a declared chain that cannot be built (Fanout.tla, Effective): each is reported and dropped, the rest
@@ -111,6 +112,16 @@ fn unbuildable(k: usize) -> Value {
         3 => json!({"kind": "scripted", "app": "one", "idx": 1, "resp": "R"}),
         _ => json!({"kind": "scripted", "app": 1, "idx": 1}),
     }
+}
+
+/// A logger of its own as the sink: a `log4rs::Logger` is a `log::Log`, so it can be attached to another logger
+/// through the blanket adapter; its single appender (at Trace, no filters) counts what arrives
+fn nested(n: Arc<AtomicUsize>, fl: Arc<AtomicUsize>) -> Box<dyn log4rs::append::Append> {
+    let cfg = log4rs::Config::builder()
+        .appender(log4rs::config::Appender::builder().build("inner", Box::new(ScriptedAppender { n, fail: false, flushes: fl })))
+        .build(log4rs::config::Root::builder().appender("inner").build(log::LevelFilter::Trace))
+        .unwrap();
+    Box::new(log4rs::Logger::new(cfg))
 }
 
 fn obj_keys_sorted(v: &Value) -> Vec<(usize, &Value)> {
@@ -176,7 +187,7 @@ fn check_case(case: &Value, style: usize) -> Option<Value> {
                 broken += 1;
             }
             let fail = at(&case["outc"], *a) == "Err";
-            apps.insert(a.to_string(), json!({"kind": "scripted_appender", "id": a, "fail": fail, "log_sink": !fail && (style / 4 + *a) % 3 == 1, "filters": decl}));
+            apps.insert(a.to_string(), json!({"kind": "scripted_appender", "id": a, "fail": fail, "log_sink": !fail && (style / 4 + *a) % 3 == 1, "nested": !fail && (style / 4 + *a) % 3 == 2, "filters": decl}));
         }
         let atts: Vec<String> = case["att"].as_array().unwrap().iter().map(|a| a.as_u64().unwrap().to_string()).collect();
         let doc = json!({"appenders": apps, "root": {"level": "trace", "appenders": atts}});
@@ -257,6 +268,8 @@ fn check_case(case: &Value, style: usize) -> Option<Value> {
             let fail = at(&case["outc"], *a) == "Err";
             let sink: Box<dyn log4rs::append::Append> = if !fail && (style / 4 + *a) % 3 == 1 {
                 Box::new(LogSink { n, flushes: fl })
+            } else if !fail && (style / 4 + *a) % 3 == 2 {
+                nested(n, fl)
             } else {
                 Box::new(ScriptedAppender { n, fail, flushes: fl })
             };
@@ -417,7 +430,7 @@ fn check_config_chains() -> Vec<Value> {
         let sink = Arc::new(Mutex::new(vec![]));
         let built = Arc::new(AtomicUsize::new(0));
         let mut d = log4rs::config::Deserializers::default();
-        d.insert("capture", CaptureDeserializer { sink: sink.clone(), built: built.clone() });
+        d.insert("capture", CaptureDeserializer { sink: sink.clone(), built: built.clone(), slow_v3: std::time::Duration::ZERO });
         // names vary so that the map iteration order varies too
         let (good, bad, filtered) = (format!("g{}", round), format!("b{}", round * 7 % 13), format!("f{}", round * 5 % 11));
         let doc = json!({
